@@ -1,7 +1,9 @@
 //! Correspondence harness: generates cases per suite, runs the implementation in /repo
 //! on each (panics captured), prints "input ; output" lines in the flat number format.
 mod common;
+mod names;
 mod suite01;
+mod suite05;
 mod suite07;
 
 use common::Rng;
@@ -13,6 +15,7 @@ fn exec(suite: u32, input: &[u64]) -> Vec<u64> {
         10 => suite01::exec10(input),
         20 | 30 => suite01::exec20(input),
         40 => suite01::exec40(input),
+        50 => suite05::exec(input),
         70 => suite07::exec(input),
         _ => vec![998],
     });
@@ -69,6 +72,7 @@ fn main() {
                 10 => suite01::gen10(tier, &mut rng, &mut emit),
                 20 | 30 => suite01::gen20(tier, &mut rng, &mut emit),
                 40 => suite01::gen40(tier, &mut rng, &mut emit),
+                50 => suite05::gen(tier, &mut rng, &mut emit),
                 70 => suite07::gen(tier, &mut rng, &mut emit),
                 _ => {}
             }
